@@ -88,6 +88,8 @@ def run(tier, seed):
                         # the handle add_op returns knows the count the operation reports after the wiring (contract shared with C01)
                         ([os.path.join(VERIF, "contracts", f) for f in ("node_port.py", "build_io.py")], ["hugr.build.dfg.DfBase.add_op"]),
                         ([os.path.join(VERIF, "contracts", f) for f in ("node_port.py", "build_call.py")], ["hugr.build.dfg.DfBase.call"]),
+                        # the handle load returns is the one add returned for the LoadConstant: it carries that operation's count (contract shared with C14)
+                        ([os.path.join(VERIF, "contracts", f) for f in ("node_port.py", "tys.py", "ops.py", "utils.py", "base.py", "load.py")], ["hugr.build.dfg.DfBase.load#node", "hugr.build.dfg.DfBase.load#value"]),
                         # a container builder's handle knows its count once the outputs are set (over the graph-store contracts of C04)
                         ([os.path.join(VERIF, "contracts", f) for f in ("node_port.py", "utils.py", "base.py", "build_counts.py")],
                          ["hugr.hugr.base.Hugr._update_node_outs", "hugr.build.dfg.DfBase._set_parent_output_count", "hugr.build.dfg.Dfg.set_outputs"])])
@@ -102,9 +104,9 @@ def run(tier, seed):
     res.level = "other"
     res.explanation = ("node_port.py (indexing, slicing, iteration, wire meaning, equality/hash projection) is proved deductively for all n, "
                        "indices and slices. Of the clause about handles *returned by the graph and the builders*, these entry points are proved: add_node with a count and _update_port_count (shared with C04), "
-                       "DfBase.add_op (the handle is the new node and carries the count the operation reports after the wiring), DfBase.call (the handle carries the Call operation's output count), Hugr._update_node_outs, DfBase._set_parent_output_count and "
+                       "DfBase.add_op (the handle is the new node and carries the count the operation reports after the wiring), DfBase.call (the handle carries the Call operation's output count), DfBase.load in both variants (the handle is the one DfBase.add returned for the LoadConstant and carries that operation's count; add is a trusted recorder restating add_op's proved clause), Hugr._update_node_outs, DfBase._set_parent_output_count and "
                        "Dfg.set_outputs (the container's handle knows the number of outputs once they are set), num_out of the operation classes (shared with C06). The other entry points (add, extend, "
-                       "call, load, insert_*, the other container builders) are covered by the bounded stand-in only (one program per entry point, plus index-reuse histories) - not counted as proved.")
+                       "insert_*, the other container builders) are covered by the bounded stand-in only (one program per entry point, plus index-reuse histories) - not counted as proved.")
     res.trusted_base += ["add_op (contracts/build_io.py): Hugr.add_node / DfBase._wire_up as trusted call recorders; the count an operation reports is a ghost of the operation and a typing epoch that _wire_up advances",
                          "Dfg.set_outputs (contracts/build_counts.py): the plain DfBase.set_outputs is a trusted callee assumed to keep the container live, well-formed and listed under its parent (what wiring does to the store is C04)"]
     return res.finish()
